@@ -154,6 +154,7 @@ def run_cfg(ctx, p, cfg):
         if "fixed_window_roller" in p.meta.get("features", []):
             from rules import c07
             c07.rule_roll_moves_file(ctx, p, cfg, "Z6b")   # .. and the roller does not report it done while the file is still in place (never deferred)
+            c07.rule_directories(ctx, p, cfg, "Z6c")   # .. nor fails (leaving the file to grow) for want of a directory it could have made: made sure of at roll time (C07.R10 re-evaluated)
     rolling.rule_writer_handle(ctx, p, cfg, "Z7")
     if "config_parsing" in p.meta.get("features", []) and "size_trigger" in p.meta.get("features", []):
         # the limit compared against is the number the configuration states: unit table and overflow check of the literal
